@@ -208,6 +208,8 @@ Definition field_schema (name : string) : option (byte * list fattr) :=
     end
   | None => None
   end.
+Definition show_sts (r : Z * bool * bool) : string :=
+  string_of_Z (fst (fst r)) ++ " " ++ (if snd (fst r) then "1" else "0") ++ " " ++ (if snd r then "1" else "0").
 Definition text_cmd (ws : list string) : option string :=
   match ws with
   | ["nvl"; sep; h] =>
@@ -226,6 +228,7 @@ Definition text_cmd (ws : list string) : option string :=
                                      (ssh_parse (ssh_msg_init (int_enum_codes "SshMessageCode")) (hex_or_empty h)))
   | ["cssh"; h] => Some ("OK " ++ hex_of_bytes (ssh_compose (hex_or_empty h)))
   | ["cssl2"; t; h] => Some (show_result hex_of_bytes (ssl2_compose (z_of_string t) (hex_or_empty h)))
+  | ["sts"; h] => Some (show_result show_sts (sts_parse (hex_or_empty h)))
   | ["hline"; strict; h] =>
       Some (show_result (fun r => hex_of_bytes (fst (fst r)) ++ " " ++ hex_of_bytes (snd (fst r)) ++ " n=" ++ string_of_Z (snd r))
                         (if String.eqb strict "1" then
